@@ -1,6 +1,6 @@
 (* Run/JudgeC05.v — case type and judge for the C05 correspondence run (whole chains rdp_fixed(points, k), k = 0..n+1). *)
 From Coq Require Import ZArith List Arith Bool PrimFloat.
-From Knee Require Import Num NumFloat NpList Model.Mapping Model.RdpFixed Model.RdpFixedSpec.
+From Knee Require Import Num NumFloat NpList Model.Mapping Model.LinearFit Model.RdpFixed Model.RdpFixedPrio Model.RdpFixedSpec.
 From Knee Require Export Model.RdpFixed.
 Import ListNotations.
 
@@ -19,41 +19,50 @@ Definition has_seg {B} (tab : list ((nat * nat) * B)) (l r : nat) : bool :=
   match assoc seg_eqb (l, r) tab with Some _ => true | None => false end.
 Definition f_eps : float := 0x1p-52%float.     (* np.finfo(float).eps *)
 
-(* the ordering score derived from its stated definition (Model/RdpFixed.v prio_derived): ct = chord table
-   (np.linalg.norm(points[l] - points[r-1]), order = triangle), rt = residual table (lf.linear_fit_residuals_points(points[l:r]),
-   order = segment); area needs only the configured distance table *)
-Definition prio_fn (ord : order) (dt : dtab_t) (ct rt : ptab_t) : nat -> nat -> float :=
-  @prio_derived FloatNum ord (prio_of ct) (prio_of rt) (dist_of dt).
-Definition prio_present (ord : order) (ct rt : ptab_t) (l r : nat) : bool :=
-  match ord with OTriangle => has_seg ct l r | OArea => true | OSegment => has_seg rt l r end.
+(* the ordering score derived from its stated definition (Model/RdpFixed.v prio_derived, Model/RdpFixedPrio.v):
+   triangle: 0.5 * chord * max(configured distance), ct = chord table (np.linalg.norm(points[l] - points[r-1]), an oracle);
+   area: pairwise sum of the configured distances; segment: the end-point-fit residual of points[l:r], COMPUTED here from
+   the points (bit-reproducible).  rt = what lf.linear_fit_residuals_points returned, only compared (resid_ok). *)
+Definition pts_t := list (float * float).
+Definition prio_fn (ord : order) (pts : pts_t) (dt : dtab_t) (ct : ptab_t) : nat -> nat -> float :=
+  @prio_closed FloatNum pts ord (prio_of ct) (dist_of dt).
+Definition prio_present (ord : order) (ct : ptab_t) (l r : nat) : bool :=
+  match ord with OTriangle => has_seg ct l r | _ => true end.
 
 (* every segment with interior points of every index set in the list has a dist entry, and (unless it is the
    root (0,n)) the entries its priority is derived from *)
-Definition segs_present (n : nat) (ord : order) (dt : dtab_t) (ct rt : ptab_t) (sets : list (list nat)) : bool :=
+Definition segs_present (n : nat) (ord : order) (dt : dtab_t) (ct : ptab_t) (sets : list (list nat)) : bool :=
   forallb (fun S => forallb (fun ab => negb (wideb ab) ||
                                       (has_seg dt (fst ab) (snd ab + 1) &&
-                                       (((fst ab =? 0) && (snd ab + 1 =? n)) || prio_present ord ct rt (fst ab) (snd ab + 1))))
+                                       (((fst ab =? 0) && (snd ab + 1 =? n)) || prio_present ord ct (fst ab) (snd ab + 1))))
                             (adj_pairs S)) sets.
 (* shape facts of the oracle tables: length (dist l r) = r - l *)
 Definition shapes_ok (dt : dtab_t) : bool :=
   forallb (fun e => length (snd e) =? snd (fst e) - fst (fst e)) dt.
 (* Tier O precondition of the greedy clause: every derived priority of a tabulated non-root segment is non-NaN *)
-Definition prios_ordered (n : nat) (ord : order) (dt : dtab_t) (ct rt : ptab_t) : bool :=
+Definition prios_ordered (n : nat) (ord : order) (pts : pts_t) (dt : dtab_t) (ct : ptab_t) : bool :=
   forallb (fun e => let l := fst (fst e) in let r := snd (fst e) in
-                    ((l =? 0) && (r =? n)) || negb (prio_present ord ct rt l r) || negb (f_isnan (prio_fn ord dt ct rt l r))) dt.
+                    ((l =? 0) && (r =? n)) || negb (prio_present ord ct l r) || negb (f_isnan (prio_fn ord pts dt ct l r))) dt.
 (* "the ordering score is the stated one": what rdp.order_* returned for a child segment (l,r) of a split the run performed
    equals the derived value bit-for-bit *)
-Definition scores_ok (ord : order) (dt : dtab_t) (ct rt : ptab_t) (ot : ptab_t) : bool :=
-  forallb (fun e => f_same (snd e) (prio_fn ord dt ct rt (fst (fst e)) (snd (fst e)))) ot.
+Definition scores_ok (ord : order) (pts : pts_t) (dt : dtab_t) (ct ot : ptab_t) : bool :=
+  forallb (fun e => f_same (snd e) (prio_fn ord pts dt ct (fst (fst e)) (snd (fst e)))) ot.
+(* "the fit residual is the stated one": lf.linear_fit_residuals_points(points[l:r]) equals the formula layer's value bit-for-bit *)
+Definition resid_ok (pts : pts_t) (rt : ptab_t) : bool :=
+  forallb (fun e => f_same (snd e) (@resid_pts FloatNum pts (fst (fst e)) (snd (fst e)))) rt.
 
+(* outs = [rdp_fixed(points, k, distance, order) for k in 0..n+1] on a curve pts of n points (None = exception / time-out);
+   dt = configured distance primitive on the segments; ct = chord lengths; rt = fit residuals as the library returns them;
+   ot = (child segment, score) pairs returned by rdp.order_<ord>(points[a:b+1], g-a, distance_points) for the splits of the chain *)
+Inductive chain := CH (n : nat) (ord : order) (pts : pts_t) (dt : dtab_t) (ct rt ot : ptab_t) (outs : list out_t).
 Inductive case :=
-  (* outs = [rdp_fixed(points, k, distance, order) for k in 0..n+1] on a curve of n points (None = exception / time-out);
-     dt = configured distance primitive on the segments; ct / rt = chord lengths / fit residuals of the segments;
-     ot = (child segment, score) pairs returned by rdp.order_<ord>(points[a:b+1], g-a, distance_points) for the splits of the chain *)
-  | CChain (n : nat) (ord : order) (dt : dtab_t) (ct rt ot : ptab_t) (outs : list out_t).
+  | CChain (n : nat) (ord : order) (pts : pts_t) (dt : dtab_t) (ct rt ot : ptab_t) (outs : list out_t)
+  (* same-object stream: the chains of several configurations (and curves refilled in place) whose calls were interleaved on ONE
+     array object; tables come from fresh copies *)
+  | CSeq (parts : list chain).
 
-Definition model_chain (n : nat) (ord : order) (dt : dtab_t) (ct rt : ptab_t) : list out_t :=
-  map (fun k => @rdp_fixed FloatNum n f_eps (dist_of dt) (prio_fn ord dt ct rt) n k) (seq 0 (n + 2)).
+Definition model_chain (n : nat) (ord : order) (pts : pts_t) (dt : dtab_t) (ct : ptab_t) : list out_t :=
+  map (fun k => @rdp_fixed FloatNum n f_eps (dist_of dt) (prio_fn ord pts dt ct) n k) (seq 0 (n + 2)).
 
 (* result code = 100 * agree + holds.
    agree: 0 the model's chain (with DERIVED priorities) = the implementation's chain, 1 differs, 4 an oracle entry the model needs
@@ -61,27 +70,47 @@ Definition model_chain (n : nat) (ord : order) (dt : dtab_t) (ct rt : ptab_t) : 
    holds (the predicate of theorem C05_chain_holds with the derived priorities, on the implementation's chain):
           1 size / well-formedness, 2 not nested with the guarded split index, 3 split segment not of maximal (derived) priority,
           4 an interior point is farther than the chosen one, 5 an ordering score returned by rdp.order_* is not the stated one,
-          8 oracle entry missing for the implementation's chain, 9 chain length *)
-Definition judge (c : case) : Z :=
+          6 lf.linear_fit_residuals_points is not the stated residual, 8 oracle entry missing for the implementation's chain, 9 chain length *)
+Definition judge_chain (c : chain) : Z :=
   match c with
-  | CChain n ord dt ct rt ot outs =>
+  | CH n ord pts dt ct rt ot outs =>
       if negb (2 <=? n) then 600%Z else
-      let pr := prio_fn ord dt ct rt in
-      let mc := model_chain n ord dt ct rt in
-      let ordered := prios_ordered n ord dt ct rt in
-      let a := if negb (shapes_ok dt) then 1%Z
-               else if negb (segs_present n ord dt ct rt (map red_of mc)) then 4%Z
+      let pr := prio_fn ord pts dt ct in
+      let mc := model_chain n ord pts dt ct in
+      let ordered := prios_ordered n ord pts dt ct in
+      let a := if negb (shapes_ok dt && (length pts =? n)) then 1%Z
+               else if negb (segs_present n ord dt ct (map red_of mc)) then 4%Z
                else if negb ordered then 5%Z
                else if list_eqb out_eqb mc outs then 0%Z else 1%Z in
       let cc := @chain_code FloatNum n f_eps (dist_of dt) pr ordered outs in
       let h := match cc with
-               | 0 => if negb (segs_present n ord dt ct rt (map red_of outs)) then 8%Z
-                      else if negb (scores_ok ord dt ct rt ot) then 5%Z else 0%Z
+               | 0 => if negb (segs_present n ord dt ct (map red_of outs)) then 8%Z
+                      else if negb (scores_ok ord pts dt ct ot) then 5%Z
+                      else if negb (resid_ok pts rt) then 6%Z else 0%Z
                | c => Z.of_nat c
                end in
       (100 * a + h)%Z
   end.
+(* a sequence is judged by its worst part: a false predicate first, then a disagreement *)
+Definition merge_codes (cs : list Z) : Z :=
+  match find (fun c => negb (c / 100 =? 6)%Z && negb (c mod 100 =? 0)%Z) cs with
+  | Some c => c
+  | None => match find (fun c => negb (c =? 0)%Z && negb (c / 100 =? 6)%Z) cs with
+            | Some c => c
+            | None => if forallb (fun c => (c / 100 =? 6)%Z) cs then 600%Z else 0%Z
+            end
+  end.
+Definition judge (c : case) : Z :=
+  match c with
+  | CChain n ord pts dt ct rt ot outs => judge_chain (CH n ord pts dt ct rt ot outs)
+  | CSeq parts => merge_codes (map judge_chain parts)
+  end.
 
-Definition show (c : case) : list out_t * list ((nat * nat) * float) :=
-  match c with CChain n ord dt ct rt ot outs =>
-    (model_chain n ord dt ct rt, map (fun e => (fst e, prio_fn ord dt ct rt (fst (fst e)) (snd (fst e)))) ot) end.
+Definition show_chain (c : chain) : list out_t * list ((nat * nat) * float) :=
+  match c with CH n ord pts dt ct rt ot outs =>
+    (model_chain n ord pts dt ct, map (fun e => (fst e, prio_fn ord pts dt ct (fst (fst e)) (snd (fst e)))) ot) end.
+Definition show (c : case) :=
+  match c with
+  | CChain n ord pts dt ct rt ot outs => [show_chain (CH n ord pts dt ct rt ot outs)]
+  | CSeq parts => map show_chain parts
+  end.
